@@ -245,6 +245,18 @@ def probes(rng):
     return res
 
 
+
+def lean_checked(ck, mods, props):
+    """ck.lean, re-run once when a props module could not be audited although lake succeeded (its .olean was
+    momentarily missing: the lake build directory is shared); still unaudited afterwards = broken obligation"""
+    res = ck.lean(mods, props)
+    if res.ok and res.failed:
+        ck.lean_results.pop()
+        res = ck.lean(mods, props)
+        if res.ok and res.failed:
+            res.ok = False
+    return res
+
 def run(ck):
     rng = random.Random(ck.seed)
     src = vlib.REPO + "/src/"
@@ -274,7 +286,7 @@ def run(ck):
     except vlib.BuildError as e:
         plate_error = e
     props = PROPS_TABLE + PROPS_AXES + (PROPS_PLATE if plate_error is None else [])
-    res = ck.lean(props, props)
+    res = lean_checked(ck, props, props)
 
     if plate_error is not None:
         m = re.search(r"error: ([^\n]*)", plate_error.log or "")
